@@ -504,6 +504,32 @@ fn r_long(ctx: &mut Ctx) {
         v.push(RAct::SetLen(at + 9));
         v
     };
+    r_history(ctx, acts, 97);
+}
+
+/// Histories that reach every fill level of a block before the widest runs the encoding allows: `fill` code
+/// units of tiny runs, then a run with a gap of 2^63 and / or a length of 2^60 + 1, then two more runs.
+fn r_block_fill(ctx: &mut Ctx) {
+    for fill in (0..=66usize).step_by(2) {
+        for &(wide_gap, wide_len) in &[(1usize << 63, (1usize << 60) + 1), (1usize << 63, 1usize), (2usize, (1usize << 60) + 1)] {
+            let mut v = Vec::new();
+            let mut at = 0usize;
+            for _ in 0..fill / 2 {
+                v.push(RAct::TrySet(at + 1, 1));
+                at += 2;
+            }
+            for (g, l) in [(wide_gap, wide_len), (1, 1), (7, 2)] {
+                v.push(RAct::TrySet(at + g, l));
+                at += g + l;
+            }
+            v.push(RAct::SetLen(at + 3));
+            r_history(ctx, v, 1);
+        }
+    }
+}
+
+/// Applies one given history, observing the builder every `every` steps and at the end.
+fn r_history(ctx: &mut Ctx, acts: Vec<RAct>, every: usize) {
     let case = || json!({"Rl": {"acts": acts}});
     ctx.announce(case);
     ctx.nontrivial(&"rl-long-history");
@@ -511,7 +537,7 @@ fn r_long(ctx: &mut Ctx) {
     let mut r = RRef::default();
     for (k, act) in acts.iter().enumerate() {
         // apply without observing at every step (the conversion is linear in the history)
-        let observe = k % 97 == 0 || k + 2 >= acts.len();
+        let observe = k % every == 0 || k + 2 >= acts.len();
         let got = guard(|| {
             match *act {
                 RAct::TrySet(s, l) => {
@@ -696,6 +722,9 @@ fn explore(ctx: &mut Ctx) {
     if ctx.mine_index(7) {
         r_long(ctx);
     }
+    if ctx.mine_index(8) {
+        r_block_fill(ctx);
+    }
 }
 
 fn replay(ctx: &mut Ctx, v: &Value) {
@@ -703,6 +732,7 @@ fn replay(ctx: &mut Ctx, v: &Value) {
     match c {
         Case::Sparse { params, acts } => s_replay(ctx, &params, &acts),
         Case::Rl { acts } if acts.len() > 100 => r_long(ctx),
+        Case::Rl { acts } if acts.iter().any(|a| matches!(a, RAct::TrySet(_, l) if *l > (1 << 59))) || acts.iter().any(|a| matches!(a, RAct::TrySet(s, _) if *s >= (1 << 63))) => r_history(ctx, acts, 1),
         Case::Rl { acts } => r_replay(ctx, &acts),
     }
 }
